@@ -99,7 +99,8 @@ def build(rng, it):
         shp = None
         if sh is not None:
             shp = [dict(fru=x['fru'], pce=None if x['pce'] < 0 else x['pce'],
-                        mru=None if x['mru'] < 0 else x['mru'], loc=x['loc']) for x in sh]
+                        mru=None if x['mru'] < 0 else x['mru'],
+                        loc=x['loc'] if x['loc'] != 20 else 4 * rng.randrange(1, 20)) for x in sh]
         s = genpel.gen_src(rng, 'PS' if j == 0 else 'SS', kind=kind if j == 0 else ['BD', 'BC', 'other'][k % 3],
                            ncallouts=len(sh) if sh is not None else -1, shapes=shp)
         s['wc'] = 1 + (k + j) % 9
